@@ -279,7 +279,9 @@ def endFlagsOf (obs : List String) : List Bool :=
   | some t => (t.drop 1).toString.toList.map (· == '1')
   | none => []
 
-/-- `is_end_stream()` may be true only when nothing more is to be sent: no data frame is produced
+/-- `is_end_stream()` may be true only when nothing more is to be sent: no data frame and no error status
+(seed C06g: a client body that reports its end while the OUT_OF_RANGE of an oversized message is still parked —
+hyper ends the request cleanly and the call succeeds with the message silently dropped) is produced
 at or after that point, and for a server body the trailers frame has already been produced (a
 true flag before it makes hyper end the stream without ever polling the grpc-status). -/
 def endStreamOk (server : Bool) (obs : List String) : Bool :=
@@ -288,7 +290,7 @@ def endStreamOk (server : Bool) (obs : List String) : Bool :=
   flags.length == toks.length + 1 &&
   (List.range flags.length).all (fun i =>
     !(flags.getD i false) ||
-      ((toks.drop i).all (fun t => tokKind t ≠ 'd') &&
+      ((toks.drop i).all (fun t => tokKind t ≠ 'd' && tokKind t ≠ 'e') &&
        (!server || (toks.take i).any (fun t => tokKind t = 't'))))
 
 /-- every observed `size_hint` is sound: lower ≤ bytes still to come ≤ upper -/
